@@ -721,6 +721,10 @@ class Interp:
             na, nb = a.notes.get(k, 0), b.notes.get(k, 0)
             if isinstance(na, int) and isinstance(nb, int):
                 j.notes[k] = max(na, nb)
+        for src in (a, b):
+            for (d, form, fn, bbi, sp, why) in src.notes.get('inv_pending', ()):
+                # a deferred invariant check cannot be followed through a join: decide it now, conservatively
+                self.oblige('R-inv', fn, bbi, f"construct {d}", sp, False, src, why + ' (paths joined before the value was range-checked or returned)')
         return j, (chg[0] or len(chg) > 1)
 
     # ------------------------------------------------------------------ predicates
@@ -1826,8 +1830,15 @@ class Interp:
             a1 = args[1]
             elems = list(a1.elems) if isinstance(a1, VTuple) else ([] if a1 is UNIT else [a1])
             res = self.call_closure(st, args[0], elems)
+        elif c.get('local') and c.get('decl') in FN_TRAIT_CALLS and len(args) == 2 and '{closure' not in (c.get('key') or '') \
+                and isinstance(args[1], (VTuple,)) and len(args[1].elems) == self.facts.body(c['key'])['argc']:
+            # fn_item.call_once((a, b)): the callee is the function itself, the first argument (the zero-sized fn item) is dropped
+            res = self.call_local(st, c['key'], list(args[1].elems))
         elif c.get('local'):
             res = self.call_local(st, c['key'], args)
+        elif c.get('decl') in FN_TRAIT_CALLS and self.fn_item_of(c) is not None and len(args) == 2 and isinstance(args[1], VTuple):
+            # fn_item.call_once((a, b)) through the compiler's shim: call the function
+            res = self.call_local(st, self.fn_item_of(c), list(args[1].elems))
         elif c.get('kind') == 'indirect':
             fv = self.operand(st, fid, t['func'])
             res = self.call_value(st, fv, args, t, body, bbi)
@@ -1843,6 +1854,13 @@ class Interp:
             except Infeasible:
                 pass
         return out
+
+    def fn_item_of(self, c):
+        """local function named by the Self type of a Fn*::call* callee (a function item), if its body is known"""
+        for x in c.get('fnargs') or ():
+            if x.get('i') == 0 and x['f'].get('c') == 'fn' and x['f'].get('key') in self.facts.bodies:
+                return x['f']['key']
+        return None
 
     def closure_of(self, st, v):
         if isinstance(v, VRef):
@@ -1925,6 +1943,8 @@ class Interp:
             res = self.call_local(st, key, args)
         finally:
             self.spec.inline_assembly = False
+        for (s2, v) in res:
+            self.spec.check_exit(self, s2, v)
         return st, args, res
 
     def run_root(self, key, variant=None):
@@ -1941,4 +1961,6 @@ class Interp:
             res = self.call_local(st, key, args)
         finally:
             self.loop_mode = saved
+        for (s2, v) in res:
+            self.spec.check_exit(self, s2, v)
         return st, args, res
